@@ -7,8 +7,10 @@ import (
 	"encoding/hex"
 	"encoding/json"
 	"fmt"
+	"math/big"
 	"os"
 	"path/filepath"
+	"sort"
 
 	"github.com/cloudflare/circl/group"
 	"github.com/cloudflare/circl/oprf"
@@ -608,5 +610,104 @@ func c01Type3ResponseNonces(c *core.Ctx, rk *rsa.PrivateKey) {
 	}
 	if c.Thorough() {
 		c.Exhaustive("every value of the first two bytes of the type-3 response nonce")
+	}
+}
+
+// c01Type2ConstructedResponses: honest type-2 runs whose RESPONSE (the blind signature z) is a chosen integer -
+// N-1, N-2^64, values sharing their top 64 bits with N, values with leading zero bytes, 1, 2 - which honest runs meet
+// with probability 2^-64 or less. The client's blind is solved for with the issuer's private key (the harness holds
+// it): a request made with blind 1 shows the encoded message m, then r = ((z^e) / m)^d gives a request whose blinded
+// message is z^e, to which the issuer's answer is z. Everything else is the ordinary flow and oracle.
+func c01Type2ConstructedResponses(c *core.Ctx, rk *rsa.PrivateKey) {
+	N := rk.N
+	e := big.NewInt(int64(rk.E))
+	one := big.NewInt(1)
+	sub := func(k uint) *big.Int { return new(big.Int).Sub(N, new(big.Int).Lsh(one, k)) }
+	top := new(big.Int).Rsh(N, uint(N.BitLen()-64))
+	topOnly := new(big.Int).Lsh(top, uint(N.BitLen()-64))
+	targets := map[string]*big.Int{
+		"N-1": new(big.Int).Sub(N, one), "N-2": new(big.Int).Sub(N, big.NewInt(2)), "N-2^64": sub(64), "N-2^64-1": new(big.Int).Sub(sub(64), one), "N-2^64+1": new(big.Int).Add(sub(64), one),
+		"N-2^128": sub(128), "N-2^1024": sub(1024), "top-64-bits-of-N,rest-zero": topOnly, "top-64-bits-of-N,rest-zero,+1": new(big.Int).Add(topOnly, one),
+		"N-with-low-64-bits-cleared": new(big.Int).Lsh(new(big.Int).Rsh(N, 64), 64),
+		"1":                          big.NewInt(1), "2": big.NewInt(2), "2^64": new(big.Int).Lsh(one, 64), "2^2039": new(big.Int).Lsh(one, 2039), "2^2040-1": new(big.Int).Sub(new(big.Int).Lsh(one, 2040), one), "2^1984+5": new(big.Int).Add(new(big.Int).Lsh(one, 1984), big.NewInt(5)),
+	}
+	names := make([]string, 0, len(targets))
+	for k := range targets {
+		names = append(names, k)
+	}
+	sort.Strings(names)
+	issuer := type2.NewBasicPublicIssuer(rk)
+	kid := issuer.TokenKeyID()
+	for _, name := range names {
+		if !c.Next() {
+			continue
+		}
+		z := targets[name]
+		if z.Sign() <= 0 || z.Cmp(N) >= 0 {
+			continue
+		}
+		r := c.CaseRng()
+		chal, nonce, salt := r.Bytes(20), r.Bytes(32), r.Bytes(48)
+		c.Eval(1)
+		d := map[string]any{"response_value": name, "challenge": core.Hex(chal), "nonce": core.Hex(nonce), "salt": core.Hex(salt)}
+		bad := func(cls, what string) {
+			c.Violation("type2:constructed-response:"+cls, "type-2 honest issuance whose blind signature is the integer "+name+": "+what, d)
+		}
+		pan, pv, where := core.Guard(func() {
+			st1, err := type2.NewBasicPublicClient().CreateTokenRequestWithBlind(chal, nonce, kid, issuer.TokenKey(), one.FillBytes(make([]byte, 256)), salt)
+			must(err)
+			m := new(big.Int).SetBytes(st1.Request().BlindedReq)
+			target := new(big.Int).Exp(z, e, N)
+			q := new(big.Int).Mul(target, new(big.Int).ModInverse(m, N))
+			q.Mod(q, N)
+			blind := new(big.Int).Exp(q, rk.D, N)
+			var st type2.BasicPublicTokenRequestState
+			okBlind := false
+			for _, b := range []*big.Int{blind, new(big.Int).ModInverse(blind, N)} {
+				st, err = type2.NewBasicPublicClient().CreateTokenRequestWithBlind(chal, nonce, kid, issuer.TokenKey(), b.FillBytes(make([]byte, 256)), salt)
+				if err == nil && new(big.Int).SetBytes(st.Request().BlindedReq).Cmp(target) == 0 {
+					okBlind = true
+					d["blind"] = b.Text(16)
+					break
+				}
+			}
+			if !okBlind {
+				c.Class("info_constructed_blind_not_reproduced")
+				return
+			}
+			dec := new(type2.BasicPublicTokenRequest)
+			if !dec.Unmarshal(clone(st.Request().Marshal())) {
+				bad("request-undecodable", "issuer-side decoder rejected the request")
+				return
+			}
+			resp, err := issuer.Evaluate(dec)
+			if err != nil {
+				bad("evaluate-error", "Evaluate failed: "+err.Error())
+				return
+			}
+			if new(big.Int).SetBytes(resp).Cmp(z) != 0 {
+				c.Class("info_constructed_response_differs")
+			} else {
+				c.Class("type2_constructed_response_values")
+			}
+			tok, err := st.FinalizeToken(clone(resp))
+			if err != nil {
+				d["response"] = core.Hex(resp)
+				bad("finalize-error", "FinalizeToken refused the honest response: "+err.Error())
+				return
+			}
+			if cls, _ := checkTokenLayout(tok, 2, nonce, chal, kid, 256); cls != "" {
+				bad(cls, "token layout")
+				return
+			}
+			if err := ref.VerifyRSAToken(&rk.PublicKey, ref.TokenBytes(2, nonce, chal, kid, nil), tok.Authenticator); err != nil {
+				bad("token-invalid", err.Error())
+				return
+			}
+			c.Distinctf("type2:constructed:%s", name)
+		})
+		if pan {
+			bad("panic:"+where, pv)
+		}
 	}
 }
